@@ -61,8 +61,8 @@ CHECKS = {
    design="DESIGN.md §5 C07"),
  "C02": dict(
    technique="stateful property-based testing of a deterministic two-endpoint simulation (PairRig) with fault injection by a proxy; history oracle (authentic / converged / events at least once)",
-   text="A real MasterTask and a real OutstationTask (real link and transport layers on both sides, the real ServerTask loop, a client loop mirroring tcp/client.rs) are joined by an in-memory proxy task on a paused-clock runtime. Generated histories: updates of all eight point types with unique values, commands through the master mirrored into output status points, waits around the confirm and response timeouts, connection cuts (now, after k bytes incl. mid-frame, half-open with pre-emption by the next connection), re-chunking and per-direction delays; configurations: unsolicited on/off, event buffers 1/2/3/60, fragment sizes 249..2048, both link error modes on both sides, poll periods, event/overflow scans. After every step every value the ReadHandler received must be one the point really held under the C10 reference (S1); after the history stops, an integrity poll that started after the last update must complete within 100 x (poll period + response timeout) of link-up virtual time and deliver every point's current value, equal to Database::get (S2); every event whose id was not reported discarded must have reached the handler as an event (S3).",
-   note="Single-threaded by design: real thread interleavings between user threads, master task and outstation task are not explored, and the kernel TCP stack is replaced by the in-memory physical layer (hook H3). Duplicated deliveries and the relative order of a stale event and a newer static value are not asserted. UpdateInfo is trusted to name created / discarded event ids.",
+   text="A real MasterTask and a real OutstationTask (real link and transport layers on both sides, the real ServerTask loop, a client loop mirroring tcp/client.rs) are joined by an in-memory proxy task on a paused-clock runtime. Generated histories: updates of all eight point types with unique values, commands through the master mirrored into output status points, waits around the confirm and response timeouts, connection cuts (now, after k bytes incl. mid-frame, half-open with pre-emption by the next connection), re-chunking and per-direction delays; configurations: unsolicited on/off, event buffers 1/2/3/60, fragment sizes 249..2048, both link error modes on both sides, poll periods, event/overflow scans. After every step every value the ReadHandler received must be one the point really held under the C10 reference (S1); after the history stops, an integrity poll that started after the last update must complete within 100 x (poll period + response timeout) of link-up virtual time and deliver every point's current value, equal to Database::get (S2); every event whose id was not reported discarded must have reached the handler as an event (S3). A second sub-check (tcp) uses only the public API over real sockets and threads: spawn_master_tcp_client <-> byte proxy on 127.0.0.1 <-> Server::add_outstation on a multi-thread runtime, with updates also issued in bursts from a separate OS thread, cuts and re-chunking at the proxy; S1 is judged always, S2/S3 once convergence has been observed, and not converging within the wall-clock budget is a label, never a violation.",
+   note="The deterministic sub-check is single-threaded by design; the tcp sub-check samples real thread interleavings and the kernel TCP stack a few dozen (quick) to a few thousand (thorough) times but cannot steer them. Duplicated deliveries and the relative order of a stale event and a newer static value are not asserted. UpdateInfo is trusted to name created / discarded event ids.",
    design="DESIGN.md §5 C02"),
  "C09": dict(
    technique="property-based testing / grammar-based fuzz-style generation: accept=>exact differential against an independent header walker, byte-for-byte differential of every request builder against reference encoders, writer output re-parsed",
